@@ -349,6 +349,29 @@ class HNative:
         ins = tuple(g.placeholder('x%d' % i) for i in range(n_inputs))
         return g.call_function(fn, (ins,) + tuple(extra_args), dict(kwargs or {}))
 
+    def fx_graph(self, spec):
+        import torch.fx as fx
+        torch = self.torch
+        root = torch.nn.Module()
+        g = fx.Graph()
+        nodes = {}
+        for name, op, inputs, meta in spec:
+            ins = tuple(nodes[i] for i in inputs)
+            if op == 'placeholder':
+                n = g.placeholder(name)
+            elif op == 'output':
+                n = g.output(ins[0] if len(ins) == 1 else ins)
+            elif op == 'call_module':
+                target = name.split('@')[0]
+                if not hasattr(root, target):
+                    root.add_module(target, torch.nn.Identity())
+                n = g.call_module(target, ins)
+            else:
+                n = g.call_function(torch.add if len(ins) == 2 else torch.relu, ins)
+            n.meta.update(meta)
+            nodes[name] = n
+        return fx.GraphModule(root, g), nodes
+
     def fx_run(self, gm, x):
         gm.graph.lint()
         gm.recompile()
